@@ -260,17 +260,19 @@ def Disk.gc (s : Disk) : Disk :=
 
 /-! ### re-scan of the directory (`initDataSet` + `TruncateGap`) -/
 
-/-- newest → oldest: keep segments while each older one ends where the newer
-    one starts (`TruncateGap`'s loop `segs[i].Left() != segs[i-1].Right()`) -/
-def contigRunRev : List DSeg → List DSeg
+/-- the newest contiguous run (oldest → newest): a segment is kept iff every
+    newer one is kept and the next one starts where it ends (`TruncateGap`'s
+    loop `segs[i].Left() != segs[i-1].Right()`, scanning from the newest) -/
+def contigRun : List DSeg → List DSeg
   | [] => []
   | [g] => [g]
-  | g :: h :: rest => if h.right = g.left then g :: contigRunRev (h :: rest) else [g]
+  | g :: h :: rest =>
+    let run := contigRun (h :: rest)
+    if run.length = (h :: rest).length ∧ g.right = h.left then g :: run else run
 
-/-- the newest contiguous run (oldest → newest) and whether older segments
-    were cut off -/
+/-- the run and whether older segments were cut off -/
 def contigSuffix (segs : List DSeg) : List DSeg × Bool :=
-  let run := (contigRunRev segs.reverse).reverse
+  let run := contigRun segs
   (run, run.length < segs.length)
 
 /-- `TruncateGap` (repaired, D15): older segments behind a gap are dropped
@@ -318,6 +320,7 @@ def takeN (n : Nat) (bs : Bytes) : Bytes := bs.take n
     caller states whether `checkHeader` accepts the snapshot file (C08 models the
     check itself). -/
 def Disk.open (s : Disk) (rid off : Nat) (crcOk : Bool) : Disk × Out :=
+  if (findReader s.readers rid).isSome then (s, .err) else     -- reader ids are fresh
   if !s.inRange off then (s, .notExist) else
   match indexAof s.segs off with
   | some g =>
@@ -505,7 +508,8 @@ structure MReader where
   pos : Nat             -- aof: `readOffset`; snapshot: `readBytes`
   size : Nat            -- snapshot size (snapshot readers)
   st : RSt
-  released : Bool       -- the copy loop returned and dropped its reference
+  started : Bool        -- `Start` was called (the copy goroutine exists)
+  released : Bool       -- the copy loop returned (or an unstarted reader was closed): reference dropped
   closedByUser : Bool
   buf : Bytes           -- written to the pipe, not yet fetched by the consumer's bufio.Reader
   bbuf : Bytes          -- in the consumer's bufio.Reader, not yet consumed
@@ -524,13 +528,15 @@ structure Mem where
   readers : List MReader
   heap : List MSeg           -- segments no longer indexed (closed, immutable) that readers may still hold
   nextSid : Nat
+  pendA : Option Bytes       -- stream writer blocked in `ensureCapacityLocked`: bytes still to append
+  pendR : Option Bytes       -- snapshot writer blocked likewise
   hbase : Nat                -- ghost
   hist : Bytes               -- ghost
 deriving Repr
 
 def Mem.init (logSize maxSize : Nat) : Mem :=
   { logSize, maxSize, runId := "", rdb := none, segs := [], aofW := none, total := 0,
-    readers := [], heap := [], nextSid := 0, hbase := 0, hist := [] }
+    readers := [], heap := [], nextSid := 0, pendA := none, pendR := none, hbase := 0, hist := [] }
 
 inductive MOp where
   | setRunId (id : String)
@@ -542,9 +548,11 @@ inductive MOp where
   | aofAppend (chunk : Bytes)
   | aofClose
   | openReader (rid off : Nat)
+  | startReader (rid : Nat)     -- `Start`: the copy goroutine begins
   | copyStep (rid : Nat)        -- one iteration of the reader's copy loop
   | consume (rid n : Nat)       -- the consumer reads up to `n` bytes from the pipe
   | closeReader (rid : Nat)
+  | retryAppend                 -- a writer blocked on capacity is woken (`spaceNotify`) and tries again
 deriving Repr, DecidableEq
 
 /-! ### index queries -/
@@ -554,14 +562,17 @@ def mLastRight : List MSeg → Option Nat
   | [g] => some g.right
   | _ :: rest => mLastRight rest
 
-/-- newest → oldest: the newest contiguous run (`continuousAofStartIndexLocked`) -/
-def mContigRunRev : List MSeg → List MSeg
+/-- the newest contiguous run, oldest → newest (`continuousAofStartIndexLocked`
+    scans from the newest segment while `segs[i].right() == left`) -/
+def mContigRun : List MSeg → List MSeg
   | [] => []
   | [g] => [g]
-  | g :: h :: rest => if h.right = g.left then g :: mContigRunRev (h :: rest) else [g]
+  | g :: h :: rest =>
+    let run := mContigRun (h :: rest)
+    if run.length = (h :: rest).length ∧ g.right = h.left then g :: run else run
 
 /-- the contiguous run, newest first -/
-def Mem.runRev (s : Mem) : List MSeg := mContigRunRev s.segs.reverse
+def Mem.runRev (s : Mem) : List MSeg := (mContigRun s.segs).reverse
 
 /-- `indexContinuousAofLocked` -/
 def Mem.indexAof (s : Mem) (off : Nat) : Option MSeg :=
@@ -790,7 +801,7 @@ def Mem.finishRdb (s : Mem) (failed : Bool) : Mem :=
 
 def Mem.reset (s : Mem) : Mem :=
   let rdbSegs := match s.rdb with | some r => r.segs | none => []
-  { s with rdb := none, segs := [], aofW := none, total := 0,
+  { s with rdb := none, segs := [], aofW := none, total := 0, pendA := none, pendR := none,
            heap := mCloseAll (s.segs ++ rdbSegs) ++ s.heap, hbase := 0, hist := [] }
 
 /-! ### readers -/
@@ -802,10 +813,11 @@ def mSetReader (rs : List MReader) (r : MReader) : List MReader :=
 
 /-- `NewReader` (the copy goroutine starts with `copyStep`s) -/
 def Mem.open (s : Mem) (rid off : Nat) : Mem × Out :=
+  if (mFindReader s.readers rid).isSome then (s, .err) else    -- reader ids are fresh
   if !s.inRange off then (s, .notExist) else
   match s.indexAof off with
   | some g =>
-    let r : MReader := { id := rid, isAof := true, seg := g.sid, pos := off, size := 0, st := .running,
+    let r : MReader := { id := rid, isAof := true, seg := g.sid, pos := off, size := 0, st := .running, started := false,
                          released := false, closedByUser := false, buf := [], bbuf := [], start := off, out := [] }
     ({ s with readers := s.readers ++ [r] }, .aof off)
   | none =>
@@ -814,19 +826,20 @@ def Mem.open (s : Mem) (rid off : Nat) : Mem × Out :=
       if off ≤ rd.left then
         match rd.segs with
         | first :: _ =>
-          let r : MReader := { id := rid, isAof := false, seg := first.sid, pos := 0, size := rd.size, st := .running,
+          let r : MReader := { id := rid, isAof := false, seg := first.sid, pos := 0, size := rd.size, st := .running, started := false,
                                released := false, closedByUser := false, buf := [], bbuf := [], start := 0, out := [] }
           ({ s with readers := s.readers ++ [r] }, .rdb rd.left rd.size)
         | [] => (s, .notExist)
       else (s, .notExist)
     | none => (s, .notExist)
 
-/-- `nextAofSegment(left)`: the indexed segment after the one whose `left`
-    matches -/
-def mNextByLeft : List MSeg → Nat → Option MSeg
+/-- `nextAofSegment(current)`: the indexed segment after `current`, looked up
+    by identity (repaired, D25: the lookup used to go by `left`, which a new
+    history after a reset can reuse) -/
+def mNextOf : List MSeg → Nat → Option MSeg
   | [], _ => none
   | [_], _ => none
-  | g :: h :: rest, left => if g.left == left then some h else mNextByLeft (h :: rest) left
+  | g :: h :: rest, sid => if g.sid == sid then some h else mNextOf (h :: rest) sid
 
 /-- One iteration of `copyAofFrom` / `copyRdbFrom`. Returns `false` when the
     goroutine is blocked (waiting for data) or has returned. -/
@@ -834,7 +847,7 @@ def Mem.copyStep (s : Mem) (rid : Nat) : Mem × Bool :=
   match mFindReader s.readers rid with
   | none => (s, false)
   | some r =>
-    if r.released then (s, false) else
+    if r.released || !r.started then (s, false) else
     let finish (st : RSt) : Mem × Bool :=
       ({ s with readers := mSetReader s.readers { r with st := st, released := true } }, true)
     if r.closedByUser then finish .ended else
@@ -849,7 +862,7 @@ def Mem.copyStep (s : Mem) (rid : Nat) : Mem × Bool :=
           let r' := { r with pos := r.pos + bs.length, buf := r.buf ++ bs, out := r.out ++ bs }
           ({ s with readers := mSetReader s.readers r' }, true)
         else if g.closed then
-          match mNextByLeft s.segs g.left with
+          match mNextOf s.segs g.sid with
           | none => finish .ended
           | some nx => ({ s with readers := mSetReader s.readers { r with seg := nx.sid } }, true)
         else (s, false)
@@ -886,7 +899,37 @@ def Mem.consume (s : Mem) (rid n : Nat) : Mem × Out :=
 def Mem.closeReader (s : Mem) (rid : Nat) : Mem × Out :=
   match mFindReader s.readers rid with
   | none => (s, .err)
-  | some r => ({ s with readers := mSetReader s.readers { r with closedByUser := true } }, .ok)
+  | some r =>
+    -- `Close` before `Start` runs the cleanup (release) itself
+    if r.started then ({ s with readers := mSetReader s.readers { r with closedByUser := true } }, .ok)
+    else ({ s with readers := mSetReader s.readers { r with closedByUser := true, released := true, st := .ended } }, .ok)
+
+/-- A blocked writer is woken and tries again (its capacity loop, then the rest
+    of its append loop). Returns whether anything changed. -/
+def Mem.retry (s : Mem) : Mem × Bool :=
+  match s.pendA with
+  | some buf =>
+    (match s.aofW with
+     | none => ({ s with pendA := none }, true)     -- writer gone: the append fails
+     | some _ =>
+       let (s1, n, blocked) := Mem.appendAofLoop (buf.length + 1) s buf 0
+       if blocked then ({ s1 with pendA := some (buf.drop n) }, decide (n > 0) || decide (s1.total ≠ s.total))
+       else ({ s1 with pendA := none }, true))
+  | none =>
+    match s.pendR with
+    | some buf =>
+      (match s.rdb with
+       | none => ({ s with pendR := none }, true)
+       | some r =>
+         if !r.writing then ({ s with pendR := none }, true) else
+         let (s1, n, blocked) := Mem.appendRdbLoop (buf.length + 1) s buf 0
+         if blocked then ({ s1 with pendR := some (buf.drop n) }, decide (n > 0) || decide (s1.total ≠ s.total))
+         else
+           let s2 := { s1 with pendR := none }
+           (match s2.rdb with
+            | some r2 => if r2.writing && r2.written ≥ r2.size then (s2.finishRdb false, true) else (s2, true)
+            | none => (s2, true)))
+    | none => (s, false)
 
 /-! ### the step function -/
 
@@ -903,7 +946,7 @@ def Mem.step (s : Mem) : MOp → Mem × Out
                nextSid := s1.nextSid + 1 }, .ok)
   | .rdbAppend chunk =>
     let (s1, n, blocked) := Mem.appendRdbLoop (chunk.length + 1) s chunk 0
-    if blocked then (s1, .blocked n) else
+    if blocked then ({ s1 with pendR := some (chunk.drop n) }, .blocked n) else
     match s1.rdb with
     | some r =>
       if r.writing && r.written ≥ r.size then (s1.finishRdb false, .done) else (s1, .ok)
@@ -932,15 +975,22 @@ def Mem.step (s : Mem) : MOp → Mem × Out
     | none => (s, .errEof)
     | some _ =>
       let (s1, n, blocked) := Mem.appendAofLoop (chunk.length + 1) s chunk 0
-      if blocked then (s1, .blocked n) else (s1, .ok)
+      if blocked then ({ s1 with pendA := some (chunk.drop n) }, .blocked n) else (s1, .ok)
   | .aofClose =>
     match s.aofW with
     | some cur => (s.finishAof cur true, .ok)
     | none => (s, .ok)
   | .openReader rid off => s.open rid off
+  | .startReader rid =>
+    match mFindReader s.readers rid with
+    | some r =>
+      if r.closedByUser then (s, .ok)
+      else ({ s with readers := mSetReader s.readers { r with started := true } }, .ok)
+    | none => (s, .err)
   | .copyStep rid => let (s', _) := s.copyStep rid; (s', .ok)
   | .consume rid n => s.consume rid n
   | .closeReader rid => s.closeReader rid
+  | .retryAppend => (s.retry.1, .ok)
 
 def Mem.run (s : Mem) : List MOp → Mem
   | [] => s
@@ -953,9 +1003,22 @@ def Mem.settleReader : Nat → Mem → Nat → Mem
     let (s', progress) := s.copyStep rid
     if progress then Mem.settleReader fuel s' rid else s'
 
-def Mem.settle (s : Mem) : Mem :=
+def Mem.settleReaders (s : Mem) : Mem :=
   s.readers.foldl (fun acc r => Mem.settleReader (2 * (acc.segs.length + acc.heap.length +
       (match acc.rdb with | some rd => rd.segs.length | none => 0) + 4)) acc r.id) s
+
+/-- all goroutines run until each is blocked or has returned: copy loops
+    drain, a blocked writer retries, and again while that made progress -/
+def Mem.settleLoop : Nat → Mem → Mem
+  | 0, s => s
+  | fuel + 1, s =>
+    let s1 := s.settleReaders
+    let (s2, progress) := s1.retry
+    if progress then Mem.settleLoop fuel s2 else s2
+
+def Mem.settle (s : Mem) : Mem :=
+  Mem.settleLoop ((match s.pendA with | some b => b.length | none => 0) +
+                  (match s.pendR with | some b => b.length | none => 0) + 2) s
 
 /-- the abstraction: what the memory cache holds (the contiguous run) -/
 def Mem.abs (s : Mem) : Log :=
